@@ -1,6 +1,6 @@
 (* C03 property theorems. This file contains only statements closed by
    [exact lemma] and Print Assumptions. *)
-From V Require Import Common.Base C03.Num C03.SpecOps C03.NumProofs C03.Tree C03.Fold C03.PowProofs C03.MiniJS C03.Worlds C03.TreeProofs C03.TreeProofs2 C03.TreeProofs3 C03.TreeProofs4 C03.TreeProofs5 C03.TreeProofs6 C03.TreeProofs7 C03.TreeProofs8 C03.TreeProofs9 C03.Refuted.
+From V Require Import Common.Base C03.Num C03.SpecOps C03.NumProofs C03.Tree C03.Fold C03.PowProofs C03.MiniJS C03.Worlds C03.TreeProofs C03.TreeProofs2 C03.TreeProofs3 C03.TreeProofs4 C03.TreeProofs5 C03.TreeProofs6 C03.TreeProofs7 C03.TreeProofs8 C03.TreeProofs9 C03.TreeProofs10 C03.Refuted.
 
 (* js_ast.ToInt32 computes ECMA-262 ToInt32 for every float64 (finite dyadic of
    any magnitude, NaN, infinities), whatever Go's implementation-defined
@@ -214,3 +214,24 @@ Theorem simplify_unused_pure_optional_call_refuted :
 Proof. exact simplify_unused_pure_optional_call_refuted_w. Qed.
 Print Assumptions simplify_unused_pure_optional_call_refuted.
 
+
+(* ValuesLookTheSame (after fix 71e396b, which made it compare the typeof-identifier
+   mark: finding P) is sound in every world: two expressions that look the same
+   have the same evaluation at the same time -- same trace, same completion, same
+   value.  (Not "no effects": two identical calls look the same.)
+   PARTIAL: [vls_ok] = number literals are canonical (one representation per
+   value, as num_of_bits produces them) and inlined enum constants wrap literals. *)
+Theorem values_look_the_same_sound_partial :
+  forall (W : world) l r,
+    vls_ok l -> vls_ok r -> values_look_the_same l r = true ->
+    forall tr, eval W tr l = eval W tr r.
+Proof. exact values_look_the_same_sound_all. Qed.
+Print Assumptions values_look_the_same_sound_partial.
+
+(* the former witness of finding P: now told apart, and the conditional is kept *)
+Theorem values_look_the_same_typeof_mark_fixed :
+  values_look_the_same typeof_bare typeof_comma = false
+  /\ mangle_if ub false false (EId 1 false false) typeof_bare typeof_comma
+      = Some (EIf (EId 1 false false) typeof_bare typeof_comma).
+Proof. exact (conj (proj1 values_look_the_same_typeof_mark) mangle_if_typeof_mark_kept). Qed.
+Print Assumptions values_look_the_same_typeof_mark_fixed.
